@@ -110,6 +110,8 @@ func c13Run(kind string, p, t *ref.T, form int, tTracked bool) core.Verdict {
 }
 
 func checkC13(c *core.Ctx) {
+	defer specialReuse(c, "loss", true)
+	defer specialC13(c)
 	defer sweepC13(c)
 	defer selfCases(c, true, "loss")
 	defer soakC13(c)
@@ -346,6 +348,7 @@ func c15Run(act ref.Op, x *ref.T, form int, down int) core.Verdict {
 }
 
 func checkC15(c *core.Ctx) {
+	defer specialReuse(c, "act", true)
 	defer scalarArgC15(c)
 	defer sweepC15(c)
 	defer soakC15(c)
